@@ -14,7 +14,16 @@ select-vs-expression    layer 3: eval(select_expression(e)) over `topology` equa
 result-form             select() returns a 1-d, integer-typed, strictly increasing array.
 malformed               empty, unbalanced/empty parentheses, dangling or doubled operators, `to` without bounds, bare
                         literals as truth values, literal-only comparisons must raise.
-keyword-meaning         boolean keyword columns agree with the documented wording on standard residues/water/ions.
+keyword-meaning         boolean keyword columns agree with the documented wording on standard residues/water/ions;
+                        (widened) every VMD water residue name, common modified residues and caps, nucleotides, one-letter
+                        codes, element masses.
+history                 (widened) the same expressions before/after edits of one topology (rename, renumber, re-segment,
+                        add/insert/delete atoms, bonds, chains, element change) and interleaved on two topologies: every
+                        evaluation must describe the topology as it is at the call.
+atom-indices(-form)     (widened) Topology.select_atom_indices: each documented option against its docstring wording over
+                        the attribute table; unknown options refused; integer 1-d result also when empty.
+pairs                   (widened) Topology.select_pairs: str/list/tuple/range/ndarray arguments, equal / disjoint /
+                        overlapping branches, unsorted input: exactly the unordered pairs a!=b, each once, shape (n, 2).
 
 Violation keys name the mechanism.  On a reference mismatch the failing expression is shrunk to its smallest failing
 boolean sub-expression; if that is an and/or whose operand is an unparenthesised comparison that a parser ordering its
@@ -42,13 +51,21 @@ RULE = ("cases = (expression string, topology name); expressions come from (a) e
         "form), (b) exhaustive enumeration of all trees of depth <= 2 over a reduced alphabet (5 terms x not/! x "
         "and/&&/or/||; thorough tier complete, quick tier a seeded sample) and of depth 1 over 21 terms covering all 12 "
         "comparison spellings, (c) seeded random trees up to depth 6 with random spellings/quoting/redundant "
-        "parentheses, (d) malformed strings built from templates; each case also runs 1-3 meaning-preserving rewrites. "
+        "parentheses, (d) malformed strings built from templates; each case also runs 1-3 meaning-preserving rewrites; "
+        "(e) widened classes: topologies from other construction routes (PSF, prmtop, RNA, tip4p virtual sites, "
+        "Topology.join, hand-built name-hostile and macro-keyword residue classes, empty/one-atom, > 1000 atoms), every "
+        "unusual literal in every quote form and position, letter-case flips, integer<->float literal forms, long "
+        "in-lists and connective chains, nesting up to the judged bound (and beyond: refusal tolerated), regex escapes "
+        "and inline flags, four-digit indices, line breaks as whitespace, illegal characters / unterminated quotes, "
+        "edit histories of one topology between evaluations, the same strings interleaved on two topologies, "
+        "select_atom_indices options and select_pairs argument forms/branches. "
         "A case is non-trivial when at least one monitor decided; distinct = distinct (expression, topology).")
 WORKERS = {"quick": 8, "thorough": 16}
 BUDGET = {"quick": int(os.environ.get("C12_BUDGET_QUICK", 60)), "thorough": int(os.environ.get("C12_BUDGET_THOROUGH", 900))}
 EXHAUSTIVE = {"thorough": True}
 FLOORS = {"quick": {"reference": 800, "synonym": 250, "parens": 140, "quoting": 80, "spacing": 40,
-                    "select-vs-expression": 280, "result-form": 280, "malformed": 35, "keyword-meaning": 2}}
+                    "select-vs-expression": 280, "result-form": 280, "malformed": 35, "keyword-meaning": 2,
+                    "history": 600, "atom-indices": 100, "atom-indices-form": 40, "pairs": 120}}
 ASSUMPTIONS = [
     "docs/atom_selection.rst is the meaning of the language; segment_id/segname (absent from its table) mean "
     "Atom.segment_id as documented in the Atom docstring",
@@ -59,6 +76,17 @@ ASSUMPTIONS = [
     "negative numbers, exponents, leading zeros, chained comparisons, string ordering, keyword-vs-keyword comparisons, "
     "non-boolean keywords used as truth values and bare words spelled like keywords are outside the documented "
     "language (skipped)",
+    "inside quotes a backslash followed by one of dwsDWS.+*?()[]$^|{} denotes those two characters (python-literal "
+    "and verbatim reading agree); other backslash sequences are outside the documented language",
+    "characters & | = ; , : [ ] { } @ # $ % ^ ~ ? ` outside quotes (after the documented operators && || == != =~ "
+    "were tried) and a quote that is never closed make a string malformed",
+    "nesting is judged up to 8 parentheses / 6 `not (` / 20 consecutive negations (the unchanged parser accepts "
+    "10 / 8 / 40 from an empty stack); deeper nesting may be refused with RecursionError (skipped)",
+    "is_water is documented by reference to VMD's residue-name list; protein-ness and one-letter codes are judged "
+    "on the 20 standard residues plus 13 common modified residues (wwPDB parent codes) and the ACE/NME caps; "
+    "`mass` is judged against IUPAC standard atomic weights (2e-3 relative)",
+    "select_atom_indices: option meanings as worded in its docstring, 'water' = oxygen atoms (by element) of water "
+    "residues; select_pairs: the set of unordered pairs {a,b}, a in selection1, b in selection2, a != b, each once",
 ]
 
 DATA = "/repo/tests/data"
@@ -124,6 +152,129 @@ def _hostile_topology():
     return top
 
 
+EXOTIC_NAMES = ["andy", "orn", "notch", "to1", "lt1", "nameX", "all1", "water2", "resid9", "indexes", "eq2", "C\u03b1",
+                "O5*", "C-1", "N+", "H_1", "a.b", "C#", "(R)", "x)y", "x and y", "a&&b", "a<b", "!x", "=~", "C  1", "C 1",
+                "ca", "CA", "Ca", "O5'", "O5", "H5''", "118", "1", "TO", "AND", "Name", "e1", "E2", "not", "resi",
+                "a or b", "||", "C 1 ", " C1", "5.5", "'", "\u00c5", "x;y", "[N]", "C=O", "\u6c34", "A|B", "p&q"]
+
+
+def _exotic_topology():
+    """Names the lexer has to get right: bare words beginning with a keyword / operator spelling, upper-case
+    look-alikes of keywords, names differing only in letter case or in inner/outer blanks, names made of operator
+    characters, parentheses, quotes, digits only, non-ASCII letters; residue numbers of 4 and 5 digits."""
+    import mdtraj as md
+    from mdtraj.core import element as elem
+    top = md.Topology()
+    E = elem.get_by_symbol
+    syms = ["C", "N", "O", "H", "S", "P", "Se", "Na", "Cl", "Fe"]
+    c0 = top.add_chain()
+    r = top.add_residue("LIG", c0, resSeq=1001, segment_id="L-1")
+    made = []
+    for k, an in enumerate(EXOTIC_NAMES):
+        if k == 20:
+            r = top.add_residue("lig", c0, resSeq=1002, segment_id="l-1")
+        if k == 40:
+            r = top.add_residue("118", c0, resSeq=2000, segment_id="SEG A")
+        made.append(top.add_atom(an, E(syms[k % len(syms)]), r))
+    for a, b in zip(made[:-1:3], made[1::3]):
+        top.add_bond(a, b)
+    c1 = top.add_chain()
+    for rn, rs, seg, atoms in [("Cl-", 12345, "ION 1", [("Cl-", "Cl")]), ("NA+", 12346, "ION 1", [("NA+", "Na")]),
+                               ("ala", 999, "", [("N", "N"), ("CA", "C"), ("C", "C"), ("O", "O")]),
+                               ("Ala", 1000, "", [("N", "N"), ("CA", "C"), ("C", "C"), ("O", "O"), ("CB", "C")]),
+                               ("ALA", 1000, "x", [("N", "N"), ("CA", "C"), ("C", "C"), ("O", "O"), ("CB", "C"), ("ca", "C")]),
+                               ("DA", 10000, "NUC", [("C1'", "C"), ("C2'", "C"), ("O4'", "O"), ("N9", "N"), ("H2''", "H"), ("C1", "C")]),
+                               ("A", 10001, "NUC", [("C1'", "C"), ("O2'", "O"), ("P", "P"), ("OP1", "O")]),
+                               ("r\u00e9sidu", 7, "s\u00e9g", [("X", "C")]), ("X Y", 8, "A B", [("Q", "C"), ("M", "C")])]:
+        r = top.add_residue(rn, c1, resSeq=rs, segment_id=seg)
+        prev = None
+        for an, sy in atoms:
+            a = top.add_atom(an, E(sy), r)
+            if prev is not None:
+                top.add_bond(prev, a)
+            prev = a
+    c2 = top.add_chain()
+    r = top.add_residue("TIP4", c2, resSeq=1, segment_id="W")
+    o = top.add_atom("OW", E("O"), r)
+    for an in ("HW1", "HW2"):
+        top.add_bond(o, top.add_atom(an, E("H"), r))
+    top.add_atom("MW", elem.virtual_site, r)
+    return top
+
+
+MACRO_WATERS = [("H2O", ("O", "H1", "H2")), ("HHO", ("O", "H1", "H2")), ("OHH", ("O", "H1", "H2")),
+                ("HOH", ("O", "H1", "H2")), ("OH2", ("O", "H1", "H2")), ("SOL", ("OW", "HW1", "HW2")),
+                ("WAT", ("O", "H1", "H2")), ("TIP", ("OH2", "H1", "H2")), ("TIP2", ("OH2", "H1", "H2")),
+                ("TIP3", ("OH2", "H1", "H2")), ("TIP4", ("OW", "HW1", "HW2")), ("HOH", ("O",)), ("HOH", ("OW", "HW1", "HW2"))]
+
+
+def _macro_topology():
+    """Residue classes behind the macro keywords: every documented water residue name (VMD list) with the atom
+    naming of its force field, modified amino acids and caps, nucleotides, ions, look-alikes that are none of them."""
+    import mdtraj as md
+    from mdtraj.core import element as elem
+    top = md.Topology()
+    E = elem.get_by_symbol
+    c0 = top.add_chain()
+    prev_c = None
+    rs = 0
+    side = {"ALA": [("CB", "C")], "GLY": [], "SER": [("CB", "C"), ("OG", "O")], "MSE": [("CB", "C"), ("CG", "C"), ("SE", "Se"), ("CE", "C")],
+            "SEP": [("CB", "C"), ("OG", "O"), ("P", "P"), ("O1P", "O")], "TPO": [("CB", "C"), ("OG1", "O"), ("CG2", "C"), ("P", "P")],
+            "PTR": [("CB", "C"), ("CG", "C")], "HYP": [("CB", "C"), ("CG", "C"), ("OD1", "O")], "SEC": [("CB", "C"), ("SE", "Se")],
+            "PYL": [("CB", "C"), ("CG", "C")], "ASX": [("CB", "C"), ("CG", "C")], "GLX": [("CB", "C"), ("CG", "C"), ("CD", "C")],
+            "UNK": [("CB", "C")], "CYM": [("CB", "C"), ("SG", "S")], "HIP": [("CB", "C"), ("CG", "C")], "LYN": [("CB", "C"), ("NZ", "N")],
+            "HIE": [("CB", "C")], "HID": [("CB", "C")], "GLH": [("CB", "C")], "CYX": [("CB", "C"), ("SG", "S")]}
+    r = top.add_residue("ACE", c0, resSeq=0, segment_id="P1")
+    a1 = top.add_atom("CH3", E("C"), r)
+    prev_c = top.add_atom("C", E("C"), r)
+    top.add_bond(a1, prev_c)
+    top.add_bond(prev_c, top.add_atom("O", E("O"), r))
+    for rn in ["ALA", "MSE", "SEP", "TPO", "GLY", "PTR", "HYP", "SEC", "PYL", "ASX", "GLX", "UNK", "CYM", "HIP", "LYN", "SER",
+               "HIE", "HID", "GLH", "CYX"]:
+        rs += 1
+        r = top.add_residue(rn, c0, resSeq=rs, segment_id="P1")
+        n = top.add_atom("N", E("N"), r)
+        ca = top.add_atom("CA", E("C"), r)
+        c = top.add_atom("C", E("C"), r)
+        o = top.add_atom("O", E("O"), r)
+        h = top.add_atom("H", E("H"), r)
+        for x, y in ((n, ca), (ca, c), (c, o), (n, h)):
+            top.add_bond(x, y)
+        top.add_bond(prev_c, n)
+        prev = ca
+        for an, sy in side[rn]:
+            a = top.add_atom(an, E(sy), r)
+            top.add_bond(prev, a)
+            prev = a
+        prev_c = c
+    r = top.add_residue("NME", c0, resSeq=rs + 1, segment_id="P1")
+    n = top.add_atom("N", E("N"), r)
+    top.add_bond(prev_c, n)
+    top.add_bond(n, top.add_atom("C", E("C"), r))
+    c1 = top.add_chain()
+    for k, (rn, names) in enumerate(MACRO_WATERS):
+        r = top.add_residue(rn, c1, resSeq=100 + k, segment_id="SOLV")
+        o = top.add_atom(names[0], E("O"), r)
+        for an in names[1:]:
+            top.add_bond(o, top.add_atom(an, E("H"), r))
+    c2 = top.add_chain()
+    for rn, an, sy in [("NA", "NA", "Na"), ("CL", "CL", "Cl"), ("K", "K", "K"), ("MG", "MG", "Mg"), ("ZN", "ZN", "Zn"),
+                       ("NA+", "NA+", "Na"), ("CL-", "CL-", "Cl"), ("CA", "CA", "Ca"), ("LIG", "CA", "C"), ("LIG", "O", "O"),
+                       ("T3P", "O", "O"), ("hoh", "O", "O"), ("WATER", "O", "O"), ("Ala", "CA", "C"), ("PROT", "N", "N")]:
+        r = top.add_residue(rn, c2, resSeq=500, segment_id="")
+        top.add_atom(an, E(sy), r)
+    c3 = top.add_chain()
+    for rn in ("DA", "G", "U", "DT"):
+        r = top.add_residue(rn, c3, resSeq=1, segment_id="NA")
+        prev = None
+        for an, sy in [("P", "P"), ("OP1", "O"), ("O5'", "O"), ("C5'", "C"), ("C4'", "C"), ("O4'", "O"), ("C1'", "C"), ("N9", "N"), ("CA", "C"), ("N", "N"), ("C", "C"), ("O", "O")]:
+            a = top.add_atom(an, E(sy), r)
+            if prev is not None:
+                top.add_bond(prev, a)
+            prev = a
+    return top
+
+
 def _subset_top(top, residue_pred, segs=None):
     idx = [a.index for a in top.atoms if residue_pred(a.residue)]
     sub = top.subset(idx)
@@ -154,6 +305,34 @@ def _make_top(name):
             ci = r.chain.index
             return k < 5 if ci in (0, 1) else (True if ci in (2, 3) else k < 6)
         return _subset_top(t, keep, segs=["PROA", "PROB", "", "HETB", "WATA", ""])
+    if name == "exotic":
+        return _exotic_topology()
+    if name == "macro":
+        return _macro_topology()
+    if name == "empty":
+        return md.Topology()
+    if name == "single":
+        t = md.Topology()
+        t.add_atom("CA", md.element.carbon, t.add_residue("ALA", t.add_chain(), resSeq=1))
+        return t
+    if name == "rna-2koc":       # nucleic acid: primed atom names, one-letter residue names
+        t = md.load_topology(os.path.join(DATA, "2koc.pdb"))
+        return _subset_top(t, lambda r: r.index < 4)
+    if name == "psf-ala3":       # CHARMM PSF: segment ids, CHARMM atom names (HN, HB1, OT1)
+        return md.load_topology(os.path.join(DATA, "ala_ala_ala.psf"))
+    if name == "prmtop-adp":     # AMBER prmtop: caps + 752 residues in one chain
+        t = md.load_topology(os.path.join(DATA, "alanine-dipeptide-explicit.prmtop"))
+        return _subset_top(t, lambda r: r.index < 3 or 700 <= r.index < 712)
+    if name == "tip4pew-gg":     # virtual sites (mass 0), NH2 cap
+        t = md.load_topology(os.path.join(DATA, "GG-tip4pew.pdb"))
+        return _subset_top(t, lambda r: r.index < 4 or 100 <= r.index < 108)
+    if name == "joined":         # Topology.join: chain/residue/atom indices continue across the parts
+        a = md.load(os.path.join(DATA, "native.pdb")).topology
+        b = _subset_top(md.load(os.path.join(DATA, "tip3p_300K_1ATM.pdb")).topology, lambda r: r.index < 6)
+        return a.join(b).join(_hostile_topology())
+    if name == "big-tip4pew":    # atom indices >= 1000 (four digits), residue indices of three digits
+        t = md.load_topology(os.path.join(DATA, "GG-tip4pew.pdb"))
+        return _subset_top(t, lambda r: r.index < 330)
     if name.startswith("rand:"):
         _, k, n = name.split(":")
         return common.random_topology(common.rng_for("C12top", int(k)), int(n), rich=True, bonds=True)
@@ -168,8 +347,13 @@ def rand_top_names(tier):
     return out
 
 
+# widened input classes: construction routes / file formats / name classes the five fixed topologies do not have
+WIDE_TOPS = ["exotic", "macro", "rna-2koc", "psf-ala3", "prmtop-adp", "tip4pew-gg", "joined"]
+SPECIAL_TOPS = ["empty", "single", "big-tip4pew"]     # used by dedicated case kinds only
+
+
 def top_names(tier):
-    return FIXED_TOPS + rand_top_names(tier)
+    return FIXED_TOPS + WIDE_TOPS + rand_top_names(tier)
 
 
 class Pools:
@@ -569,6 +753,258 @@ def malformed_from(rng, pools):
     return f"{w()} {b()} {int(rng.integers(0, 9))} {cm()} {int(rng.integers(0, 9))}"
 
 
+# ------------------------------------------------------------------------------- widened input classes (generators)
+MALFORMED_WIDE = ["name 'CA", 'name "CA', "name CA'", "resname 'ALA\" or water", "'", "protein and name 'O", "protein & water",
+                  "protein | water", "protein &&& water", "index = 5", "index === 5", "index => 5", "index =< 5", "index <> 5",
+                  "index =! 5", "name CA, CB", "name CA;", "protein; water", "resid 1:5", "resid [1, 2]", "resid {1 2}",
+                  "name CA?", "name C# or water", "water @ 5", "protein ^ water", "~protein", "name `CA`", "mass $5", "index 5%",
+                  "Protein", "WATER and name O", "All", "NOT protein", "protein AND water", "protein OR water", "protein Or water",
+                  "Backbone or sidechain", "is_Protein", "protein and Water", "protein and (Water)", "! Protein",
+                  "water or", "(water or) protein", "protein and (or water)", "(and)", "(!)", "(not) protein", "to", "5 to 6",
+                  "to 5 6", "resid 5 to 6 to 7 and", "index < 5 <", "< index 5", "=~ name", "name =~ =~ 'C'", "name =~ and water",
+                  "'CA' =~ 'C'", "5 =~ 5", "\"a\" == 'a'", "5 == 5.0", "CA != CB or protein", "(", "((", "))", ")(",
+                  "protein ) (", "(protein) (", "not ()", "!()", "(()) and protein", "protein and ((water)"]
+REGEX_ESC = [r"C\d", r"H\w*", r"\w+\d$", r"[A-Z]+\d?$", r"\w\w$", r"H\d+", r"\D+$", r"\S+\s\S+", r"O5\*", r"\(R\)", r"a\.b",
+             r"N\+", r"A\|B", r"x\)y", r"\[N\]", r"[^\d]+$", r"\w+'$", r"C\d'", "(?i)ca", "(?i)c[ab]$", "(?s).", "C.{1,2}$",
+             r"C\w{1}$", "(?:CA|CB)$", "(?!H).*", "(?i)h.*|o", "[a-z]+$", r"\w+[+-]$", r".*\s.*", r"\d+$"]
+
+
+def _sample(items, n, rng):
+    if n >= len(items):
+        return list(items)
+    return [items[int(j)] for j in sorted(rng.choice(len(items), n, replace=False))]
+
+
+def xlit_terms(pools):
+    """Every string value of the topology, in every quote form and every depth-0/1 position."""
+    out = []
+    for canon in ("name", "resname", "segment_id", "type"):
+        vals = pools.present.get(canon, [])
+        for ai, kw in enumerate(STR_KW[canon]):
+            for vi, v in enumerate(vals):
+                forms = ref.quote_forms(v)
+                if not forms:
+                    continue
+                g = ref.quote_forms(vals[(vi + 1) % len(vals)])
+                f0 = forms[(vi + ai) % len(forms)]
+                g0 = g[(vi + 1) % len(g)] if g else "'XX'"
+                if ai == 0 or vi % 3 == ai % 3:
+                    out += [f"{kw} {f}" for f in forms]
+                out += [f"{kw} == {f0}", f"{f0} != {kw}", f"not {kw} {f0}", f"{kw} {f0} {g0}", f"{kw} {g0} {f0} 'XX'",
+                        f"protein or {kw} {f0}", f"{kw} {f0} and all", f"! ({kw} ne {f0})"][:8 if ai == 0 else 3]
+    return out
+
+
+def caseflip_terms(pools, rng):
+    out = []
+    for canon, aliases in STR_KW.items():
+        vals = [v for v in pools.present.get(canon, []) if v and any(ch.isalpha() for ch in v)]
+        if not vals:
+            continue
+        for kw in aliases:
+            v = vals[int(rng.integers(len(vals)))]
+            for v2 in {v.lower(), v.upper(), v.swapcase(), v.capitalize()} - {v}:
+                f, f2 = str_lit(v, rng), str_lit(v2, rng)
+                if not f or not f2:
+                    continue
+                out += [f"{kw} {f2}", f"{kw} {f} {f2}", f"{kw} != {f2}", f"{kw} {f} and not {kw} {f2}"]
+                if v.isalnum():
+                    out.append(f"{kw} =~ '(?i){v2}$'")
+                    out.append(f"{kw} =~ '{v2}'")
+    return out
+
+
+def numlit_terms(pools):
+    """Numeric literal forms the documentation allows (integer and floating point) on keywords of the other type."""
+    out = []
+    for canon, aliases in NUM_KW.items():
+        vals = sorted(set(pools.present.get(canon, []))) or [0]
+        lo, v, hi = vals[len(vals) // 4], vals[len(vals) // 2], vals[(3 * len(vals)) // 4]
+        for kw in aliases:
+            if canon == "mass":
+                a, b, c = int(lo), int(v), int(hi)
+                out += [f"{kw} {b}", f"{kw} {a} to {c + 1}", f"{kw} > {b}", f"{kw} <= {b}", f"{b} lt {kw}", f"{kw} {a} {b} {c}",
+                        f"{kw} {repr(float(v))}", f"{kw} {repr(float(v))} {repr(float(lo))}", f"{kw} == {repr(float(v))}",
+                        f"{kw} != {repr(float(v))}", f"{kw} {repr(float(v))} to {repr(float(v))}", f"{kw} 0 to 0", f"{kw} 0"]
+                continue
+            a, b, c = int(lo), int(v), int(hi)
+            out += [f"{kw} {b}.0", f"{kw} {b}.", f"{kw} {b}.5", f"{kw} < {b}.5", f"{b}.5 >= {kw}", f"{kw} >= {b}.0",
+                    f"{kw} {a}.5 to {c}.5", f"{kw} {a}.0 to {c}.", f"{kw} {b}. {c}.0 {a}", f"{kw} == {b}.0", f"{kw} != {b}.00",
+                    f"{kw} ne {b}.25", f"{kw} .5 to {b}.5", f"{kw} 0.0", f"not {kw} {b}.0"]
+    return out
+
+
+def long_case(rng, pools):
+    r = rng.random()
+    if r < 0.35:      # long in-list
+        is_str = rng.random() < 0.5
+        canon = list(STR_KW if is_str else NUM_KW)[int(rng.integers(len(STR_KW if is_str else NUM_KW)))]
+        kw = (STR_KW if is_str else NUM_KW)[canon]
+        kw = kw[int(rng.integers(len(kw)))]
+        n = int(rng.integers(8, 41))
+        if is_str:
+            items = [str_lit(pick_str(rng, pools, canon), rng) or "'XX'" for _ in range(n)]
+        else:
+            items = [fmt_num(pick_num(rng, pools, canon), rng) for _ in range(n)]
+        return f"{kw} " + " ".join(items), "inlist"
+    n = int(rng.integers(6, 21))
+    kids = []
+    for _ in range(n):
+        txt, cls = rand_primary(rng, pools)
+        t = ("t", txt, cls)
+        if cls != "cmp" and rng.random() < 0.2:
+            t = ("not", ["not", "!"][int(rng.integers(2))], t)
+        kids.append(t)
+    if r < 0.6:
+        kind = "and" if rng.random() < 0.4 else "or"
+        sp = {"and": ["and", "&&"], "or": ["or", "||"]}[kind]
+        return render((kind, [sp[int(rng.integers(2))] for _ in range(n - 1)], kids), rng), "chain-" + kind
+    # or of ands, no parentheses
+    groups, i = [], 0
+    while i < n:
+        m = int(rng.integers(1, 5))
+        g = kids[i:i + m]
+        i += m
+        groups.append(g[0] if len(g) == 1 else ("and", [["and", "&&"][int(rng.integers(2))] for _ in range(len(g) - 1)], g))
+    if len(groups) == 1:
+        return render(groups[0], rng), "chain-and"
+    return render(("or", [["or", "||"][int(rng.integers(2))] for _ in range(len(groups) - 1)], groups), rng), "chain-mixed"
+
+
+JUDGED_PAREN_DEPTH = 8       # the parser of the unchanged tree accepts 10 nested parentheses from an empty stack
+JUDGED_NOT_PAREN = 6         # ... and 8 nested `not (`
+JUDGED_NOT_CHAIN = 20        # ... and 40 consecutive negations
+
+
+def deep_case(rng, pools, beyond=False):
+    """(expression, shape, depth).  beyond: nesting deeper than the bound up to which the property is judged."""
+    txt, cls = rand_primary(rng, pools)
+    if rng.random() < 0.4:
+        t2, _ = rand_primary(rng, pools)
+        txt = f"{txt} {['and', 'or', '&&', '||'][int(rng.integers(4))]} {t2}"
+        cls = "bool"
+    shape = ["parens", "not-parens", "not-chain", "left-nest", "right-nest"][int(rng.integers(5))]
+    if shape == "parens":
+        k = int(rng.integers(11, 31)) if beyond else int(rng.integers(3, JUDGED_PAREN_DEPTH + 1))
+        return "(" * k + txt + ")" * k, shape, k
+    if shape == "not-parens":
+        k = int(rng.integers(9, 25)) if beyond else int(rng.integers(2, JUDGED_NOT_PAREN + 1))
+        sp = [["not ", "!", "! ", "not"][int(rng.integers(4))] for _ in range(k)]
+        return "".join(x + "(" for x in sp) + txt + ")" * k, shape, k
+    if shape == "not-chain":
+        k = int(rng.integers(80, 200)) if beyond else int(rng.integers(2, JUDGED_NOT_CHAIN + 1))
+        core = txt if cls == "prim" else "(" + txt + ")"
+        return "".join(["not ", "!", "! "][int(rng.integers(3))] for _ in range(k)) + core, shape, k
+    k = int(rng.integers(11, 25)) if beyond else int(rng.integers(3, 7))    # parse time grows steeply with k
+    e = "(" + txt + ")" if cls != "prim" else txt
+    for _ in range(k):
+        t2, c2 = rand_primary(rng, pools)
+        if c2 != "prim":
+            t2 = "(" + t2 + ")"
+        op = ["and", "or", "&&", "||"][int(rng.integers(4))]
+        e = f"({e} {op} {t2})" if shape == "left-nest" else f"({t2} {op} {e})"
+    return e, shape, k
+
+
+def regesc_terms(pools, rot):
+    out = []
+    kws = [kw for c in ("name", "resname", "type", "segment_id") for kw in STR_KW[c]]
+    for j, pat in enumerate(REGEX_ESC):
+        kw = kws[(j + rot) % len(kws)]
+        q = "'" if "'" not in pat else '"'
+        out.append(f"{kw} =~ {q}{pat}{q}")
+        q2 = '"' if '"' not in pat and "'" not in pat else q
+        out.append([f"not {kw} =~ {q2}{pat}{q2}", f"protein or {kw} =~ {q2}{pat}{q2}", f"{kw} =~ {q2}{pat}{q2} and index < 40",
+                    f"!({kw} =~ {q2}{pat}{q2})"][(j + rot) % 4])
+    return out
+
+
+def bigindex_terms(n_atoms, n_res, rng):
+    out = []
+    marks = [9, 10, 99, 100, 999, 1000, 1001, 1023, 1024, n_atoms - 1, n_atoms, n_atoms + 1]
+    for m in marks:
+        a, b = max(0, m - int(rng.integers(0, 4))), m + int(rng.integers(0, 4))
+        out += [f"index {a} to {b}", f"index >= {m}", f"index {m}", f"not index < {m}", f"{m} <= index",
+                f"index {m} {a} {b} {m + 1000}", f"index > {a} and index lt {b}", f"index {m}.0", f"index != {m}"]
+    for m in [9, 10, 99, 100, n_res - 1, n_res]:
+        out += [f"resid {max(0, m - 2)} to {m}", f"resid > {m - 1}", f"resi {m}", f"resid {m} {m + 1} {m - 1 if m else 0}"]
+    out += [f"index {n_atoms - 3} to 99999999", "index 0 to 100000", f"index 1000 to {n_atoms} and name O",
+            "index 1000 1001 1002 1003 1004 1005 1006 1007 1008 1009 1010", f"resid 0 to {n_res}"]
+    return out
+
+
+TINY_TERMS = BOOL_ALIASES + [t for t, _ in D1_TERMS] + ["not all", "all and none", "name CA or resname ALA", "index 0",
+                                                        "index 0 to 0", "resid 0", "chainid 0", "(all)", "! none"]
+HIST_EXPRS = ["water", "protein", "backbone or sidechain", "name CA", "name QQ", "resname HOH", "resname ALA GLY", "rescode A",
+              "n_bonds >= 2", "n_bonds 0", "residue 1 to 3", "resSeq 777", "segname SEGA", "segment_id 'NEW'", "type C",
+              "element Se", "mass > 13", "index < 7", "index 5 to 400", "resid 2", "chainid 0", "chainid 1 to 9",
+              "not water and not protein", "all", "none", "name =~ 'Q.*'", "sidechain and not name CB", "is_water or resn SOL"]
+MUTATIONS = ["rename-atom", "rename-residue-to-water", "rename-residue-to-protein", "renumber-residue", "set-segment",
+             "add-bond", "add-atom", "add-chain-residue-atom", "delete-atom", "change-element", "insert-atom"]
+HIST_BASES = ["hostile", "macro", "exotic"]
+GROUP_OPTIONS = ["all", "alpha", "minimal", "heavy", "water"]
+
+
+def gen_wide(tier, seed, case, tops):
+    quick = tier == "quick"
+    rs = common.rng_for("C12wide", seed, tier)
+    # malformed: illegal characters, unterminated quotes, upper-case look-alikes of keywords and connectives
+    for j, e in enumerate(MALFORMED_WIDE):
+        yield case("malformed", tops[(j + seed) % len(tops)], e, 0)
+    # every unusual literal of the name-rich topologies in every position
+    for t in ("exotic", "hostile", "rna-2koc", "macro", "psf-ala3"):
+        terms = xlit_terms(get_top(t)[2])
+        for e in (_sample(terms, 60 if t == "exotic" else 25, rs) if quick else terms):
+            yield case("xlit", t, e, 1)
+    for ti, t in enumerate(tops):
+        pools = get_top(t)[2]
+        rng = common.rng_for("C12wideTop", seed, t)
+        cf = caseflip_terms(pools, rng)
+        nl = numlit_terms(pools)
+        rx = regesc_terms(pools, ti + seed)
+        for e in (_sample(cf, 5, rng) if quick else cf):
+            yield case("caseflip", t, e, 1)
+        for e in (_sample(nl, 6, rng) if quick else nl):
+            yield case("numlit", t, e, 1)
+        for e in (_sample(rx, 5, rng) if quick else rx):
+            yield case("regesc", t, e, 1)
+    for j in range(50 if quick else 500):
+        rng = common.rng_for("C12long", seed, j)
+        t = tops[int(rng.integers(len(tops)))]
+        e, shape = long_case(rng, get_top(t)[2])
+        yield case("long", t, e, 1, shape=shape)
+    for j in range(28 if quick else 300):
+        rng = common.rng_for("C12deep", seed, j)
+        t = tops[int(rng.integers(len(tops)))]
+        beyond = j % 7 == 6
+        e, shape, k = deep_case(rng, get_top(t)[2], beyond)
+        yield case("deep", t, e, 0 if beyond else 1, shape=shape, depth=k, beyond=int(beyond))
+    top, table, _ = get_top("big-tip4pew")
+    terms = bigindex_terms(table.n, top.n_residues, common.rng_for("C12big", seed))
+    for e in (_sample(terms, 40, rs) if quick else terms):
+        yield case("bigindex", "big-tip4pew", e, 1)
+    for t in ("empty", "single"):
+        for e in (_sample(TINY_TERMS, 20, rs) if quick else TINY_TERMS):
+            yield case("tiny", t, e, 1)
+    # histories: the topology changes between two evaluations of the same expressions
+    for bi, base in enumerate(HIST_BASES):
+        for mi, m in enumerate(MUTATIONS):
+            if quick and (mi + bi + seed) % 3 == 2 and base != "hostile":
+                continue
+            yield case("history", base, "", 0, steps=[m])
+    for j in range(0 if quick else 60):
+        rng = common.rng_for("C12hist", seed, j)
+        yield case("history", HIST_BASES[j % 3], "", 0, steps=[MUTATIONS[int(k)] for k in rng.integers(len(MUTATIONS), size=3)])
+    for j in range(12 if quick else 100):
+        rng = common.rng_for("C12two", seed, j)
+        a, b = [tops[int(k)] for k in rng.choice(len(tops), 2, replace=False)]
+        yield case("twotops", a, "", 0, other=b)
+    # named atom groups and pair generation
+    for t in tops + SPECIAL_TOPS:
+        yield case("groups", t, "", 0)
+        yield case("pairs", t, "", 0)
+
+
 NCASES = {"quick": dict(d1=400, d2=440, rand=600, flat=440, malformed=180, spacing=200),
           "thorough": dict(rand=7000, flat=3000, malformed=2500, spacing=1500)}
 MAXTOK = {"quick": 40, "thorough": 60}
@@ -650,6 +1086,7 @@ def _gen_cases(tier, seed):
         t = tops[int(rng.integers(len(tops)))]
         tree = rand_tree(rng, int(rng.choice([0, 1, 1, 2])), get_top(t)[2])
         yield case("spacing", t, render(tree, rng, redundant=0.3, amb=0.0), 0)
+    yield from gen_wide(tier, seed, case, tops)
 
 
 # ------------------------------------------------------------------------------------------------ real executions
@@ -979,6 +1416,272 @@ def _inside_ambiguous(root, target):
     return bool(rec(root, False))
 
 
+def _literal_class(v):
+    if not v:
+        return "empty"
+    if any(ord(ch) > 127 for ch in v):
+        return "non-ascii"
+    if v in ref.RESERVED or v.lower() in ref.RESERVED:
+        return "spelled-like-keyword-or-operator"
+    if any(v.startswith(k) and len(v) > len(k) for k in ref.RESERVED if len(k) > 1) and v.isalnum():
+        return "begins-with-keyword-or-operator"
+    if v != v.strip() or "  " in v:
+        return "outer-or-double-blank"
+    if " " in v:
+        return "inner-blank"
+    if "'" in v or '"' in v:
+        return "contains-quote"
+    if any(ch in v for ch in "()&|<>=!~"):
+        return "operator-characters"
+    if v.isdigit() or v.replace(".", "").isdigit():
+        return "digits-only"
+    if not v.isalnum():
+        return "other-punctuation"
+    if v[0].isdigit():
+        return "digit-first"
+    return "plain"
+
+
+def _judge_list(ctx, monitor, key, top, table, exprs, label):
+    """Every expression of exprs on (top, table) against the reference; one event per expression."""
+    for e in exprs:
+        p = ref.Parsed(e)
+        if p.status != "ok":
+            raise AssertionError(f"history expression not judged: {e!r} {p.status} {p.reason}")
+        r = real_select(top, e)
+        try:
+            want = ref.evaluate(p, table)
+        except ref.Undefined as u:
+            ctx.skip(monitor, f"undefined: {u}")
+            continue
+        if r.outcome == "ok" and r.idx == want:
+            ctx.ok(monitor)
+        else:
+            ctx.violation(monitor, key, f"{label}: {e!r} real {r.brief()}; reference selects {len(want)} atoms {want[:12]}",
+                          expr=e, real=r.idx if r.idx is None else r.idx[:40], reference=want[:40])
+
+
+def _mutate(top, m, rng):
+    """Apply one edit through the public Topology API; returns a description."""
+    import mdtraj as md
+    from mdtraj.core import element as elem
+    atoms = list(top.atoms)
+    residues = list(top.residues)
+    if m == "rename-atom":
+        a = atoms[int(rng.integers(len(atoms)))]
+        a.name = "QQ" if a.name != "QQ" else "CA"
+        return f"atom {a.index} renamed"
+    if m == "rename-residue-to-water":
+        r = [x for x in residues if not x.is_water][int(rng.integers(3))]
+        r.name = ["HOH", "SOL", "TIP3"][int(rng.integers(3))]
+        return f"residue {r.index} -> {r.name}"
+    if m == "rename-residue-to-protein":
+        r = [x for x in residues if not x.is_protein][int(rng.integers(3))]
+        r.name = ["ALA", "GLY", "MSE"][int(rng.integers(3))]
+        return f"residue {r.index} -> {r.name}"
+    if m == "renumber-residue":
+        r = residues[int(rng.integers(len(residues)))]
+        r.resSeq = 777 if r.resSeq != 777 else 2
+        return f"residue {r.index} resSeq {r.resSeq}"
+    if m == "set-segment":
+        r = residues[int(rng.integers(len(residues)))]
+        r.segment_id = "NEW" if r.segment_id != "NEW" else "SEGA"
+        return f"residue {r.index} segment {r.segment_id}"
+    if m == "add-bond":
+        have = {frozenset((b[0].index, b[1].index)) for b in top.bonds}
+        for _ in range(50):
+            i, j = [int(x) for x in rng.integers(len(atoms), size=2)]
+            if i != j and frozenset((i, j)) not in have:
+                top.add_bond(atoms[i], atoms[j])
+                return f"bond {i}-{j}"
+        return "no bond added"
+    if m == "add-atom":
+        top.add_atom("QQ", elem.selenium, residues[-1])
+        return "atom appended to the last residue"
+    if m == "add-chain-residue-atom":
+        r = top.add_residue("HOH", top.add_chain(), resSeq=777, segment_id="NEW")
+        o = top.add_atom("O", elem.oxygen, r)
+        top.add_bond(o, top.add_atom("H1", elem.hydrogen, r))
+        return "chain with one water appended"
+    if m == "delete-atom":
+        # delete_atom_by_index leaves the bonds of the deleted atom in place (topology bookkeeping, not selection):
+        # only atoms without bonds are deleted here
+        bonded = {x.index for b in top.bonds for x in (b[0], b[1])}
+        cand = [a.index for a in atoms if a.index not in bonded and a.residue.n_atoms > 1] or \
+               [a.index for a in atoms if a.index not in bonded]
+        if not cand:
+            return None
+        i = cand[int(rng.integers(len(cand)))]
+        top.delete_atom_by_index(i)
+        return f"atom {i} deleted"
+    if m == "change-element":
+        a = atoms[int(rng.integers(len(atoms)))]
+        a.element = elem.selenium if a.element is not elem.selenium else elem.carbon
+        return f"atom {a.index} element {a.element.symbol}"
+    if m == "insert-atom":
+        r = [x for x in residues if x.n_atoms > 0][int(rng.integers(3))]
+        top.insert_atom("QQ", elem.carbon, r, index=next(iter(r.atoms)).index, rindex=0)     # consistent positions
+        return f"atom inserted at the head of residue {r.index}"
+    raise KeyError(m)
+
+
+def _run_history(case, ctx, top0, table0):
+    """Same expressions before and after the topology is edited: a result must describe the topology as it is at the
+    call (a parse/predicate/result cache keyed on the expression or on the object identity would go stale)."""
+    top = _make_top(case["top"])          # private copy, never the cached one
+    rng = common.rng_for("C12mut", case["seed"])
+    _judge_list(ctx, "history", "history:before-any-edit:wrong-selection", top, ref.AtomTable(top), HIST_EXPRS, "fresh topology")
+    for m in case["steps"]:
+        ctx.observe("history-mutation", m)
+        what = _mutate(top, m, rng)
+        if what is None:
+            ctx.skip("history", f"{m}: no candidate atom in this topology")
+            continue
+        table = ref.AtomTable(top)
+        if not table.walk_matches_index:
+            ctx.skip("history", f"atom.index no longer equals the position after {m} (topology bookkeeping, not selection)")
+            return
+        _judge_list(ctx, "history", f"history:after-{m}:stale-or-wrong-selection", top, table, HIST_EXPRS,
+                    f"after {m} ({what}) on a copy of {case['top']}")
+
+
+def _run_twotops(case, ctx, top, table):
+    """The same expression strings on two topologies, interleaved."""
+    other, otable, _ = get_top(case["other"])
+    ctx.observe("twotops", "A-B-A-B")
+    exprs = [t for t, _ in D1_TERMS] + ["protein", "water and name O", "resname ALA", "not backbone", "segname SEGA or segname B"]
+    rng = common.rng_for("C12twoExpr", case["seed"])
+    for e in _sample(exprs, 7, rng):
+        for (tp, tb, nm) in ((top, table, case["top"]), (other, otable, case["other"])) * 2:
+            _judge_list(ctx, "history", "history:same-expression-on-another-topology:wrong-selection", tp, tb, [e],
+                        f"interleaved on {case['top']}/{case['other']}, now {nm}")
+
+
+def _run_groups(case, ctx, top, table):
+    for opt in GROUP_OPTIONS:
+        ctx.observe("group-option", opt)
+        want = ref.atom_group(table, opt)
+        if opt == "water" and case["top"].startswith("rand:") and any(
+                (table.cols["name"][i] in ("O", "OW")) != (table.cols["type"][i] == "O") for i in range(table.n) if table.cols["water"][i]):
+            ctx.skip("atom-indices", "random topology whose water atom names contradict their elements: 'water oxygen' undefined")
+            continue
+        try:
+            got = top.select_atom_indices(opt)
+        except Exception as ex:  # noqa: BLE001
+            ctx.violation("atom-indices", f"select_atom_indices:{opt}:raises", f"select_atom_indices({opt!r}) on {case['top']} raised {type(ex).__name__}: {ex}")
+            continue
+        if not (isinstance(got, np.ndarray) and got.ndim == 1):
+            ctx.violation("atom-indices", "select_atom_indices:result-not-1d-ndarray", f"{opt}: {type(got).__name__}")
+            continue
+        lst = [int(x) for x in got.tolist()]
+        if lst != want:
+            missing = sorted(set(want) - set(lst))
+            extra = sorted(set(lst) - set(want))
+            key = f"select_atom_indices:{opt}:wrong-atoms"
+            if opt == "water" and not extra and all(table.cols["name"][i] not in ("O", "OW") for i in missing):
+                key = "select_atom_indices:water:oxygen-not-named-O-or-OW-missed"
+            ctx.violation("atom-indices", key, f"select_atom_indices({opt!r}) on {case['top']}: {len(lst)} atoms, documented "
+                          f"meaning gives {len(want)}; missing {missing[:8]} "
+                          f"({[table.cols['resname'][i] + ':' + table.cols['name'][i] for i in missing[:5]]}) extra {extra[:8]}")
+        else:
+            ctx.ok("atom-indices")
+        if got.dtype.kind not in "iu":
+            ctx.violation("atom-indices-form", "select_atom_indices:empty-result-has-float-dtype" if got.size == 0
+                          else "select_atom_indices:result-dtype-not-integer",
+                          f"select_atom_indices({opt!r}) on {case['top']} returned dtype {got.dtype} for {got.size} atoms "
+                          "(an index array must be usable as an index)", dtype=str(got.dtype))
+        else:
+            ctx.ok("atom-indices-form")
+        # spelling in another letter case: accepted (then the same atoms) or refused
+        alt = opt.upper() if len(opt) % 2 else opt.capitalize()
+        try:
+            g2 = [int(x) for x in top.select_atom_indices(alt).tolist()]
+        except ValueError:
+            ctx.skip("atom-indices", "option in another letter case refused")
+        else:
+            ctx.check(g2 == lst, "atom-indices", f"select_atom_indices:{opt}:letter-case-changes-result", f"{alt!r} vs {opt!r}")
+    for bad in ("bogus", "", "alpha carbon", "heavy,water", "name CA"):
+        try:
+            got = top.select_atom_indices(bad)
+        except Exception as ex:  # noqa: BLE001
+            ctx.ok("atom-indices")
+            ctx.observe("group-bad-option-rejected-with", type(ex).__name__)
+        else:
+            ctx.violation("atom-indices", "select_atom_indices:unknown-option-accepted", f"{bad!r} returned {len(got)} atoms")
+
+
+def _pairs_expected(a, b):
+    return {frozenset((int(x), int(y))) for x in a for y in b if x != y}
+
+
+def _run_pairs(case, ctx, top, table):
+    rng = common.rng_for("C12pairs", case["seed"])
+    n = table.n
+    sels = ["all", "none", "protein", "water", "name CA", "not protein", "index < 6", "index 2 to 9", "index 4 5 6 7 20",
+            "backbone", "name O", "resid 0 1", "resid 1 2", "index 3", "type H"]
+    jobs = []
+    for _ in range(4):
+        jobs.append(("str-str", sels[int(rng.integers(len(sels)))], sels[int(rng.integers(len(sels)))]))
+    jobs += [("str-str", "index < 6", "index < 6"), ("str-str", "index < 5", "index 5 to 9"), ("str-str", "index < 6", "index 3 to 9"),
+             ("str-str", "index 3", "index 3"), ("str-str", "none", "all"), ("str-str", "name CA", "name CA")]
+    if n >= 2:
+        k = min(n, 12)
+        ia = [int(x) for x in rng.choice(n, size=min(k, int(rng.integers(1, 7))), replace=False)]
+        ib = [int(x) for x in rng.choice(n, size=min(k, int(rng.integers(1, 7))), replace=False)]
+        jobs += [("list-str", ia, sels[int(rng.integers(len(sels)))]), ("str-int64-array", "index < 6", np.array(ib, dtype=np.int64)),
+                 ("int32-array-descending-twice", np.array(sorted(ia, reverse=True), dtype=np.int32), np.array(sorted(ia, reverse=True), dtype=np.int32)),
+                 ("list-list-unsorted", ia, ib), ("tuple-range", tuple(ia), range(min(n, 5))),
+                 ("list-same-set-other-order", ia, list(reversed(ia))), ("list-list-disjoint", [i for i in ia if i % 2 == 0] or [0], [i for i in ib if i % 2 == 1] or [1])]
+    for form, s1, s2 in jobs:
+        ctx.observe("pairs-argument-form", form)
+        def resolve(sel):
+            if isinstance(sel, str):
+                return ref.evaluate(ref.Parsed(sel), table)
+            return [int(x) for x in sel]
+        a, b = resolve(s1), resolve(s2)
+        want = _pairs_expected(a, b)
+        branch = "equal" if sorted(a) == sorted(b) else ("disjoint" if not set(a) & set(b) else "overlapping")
+        ctx.observe("pairs-branch", branch + (":empty" if not want else ""))
+        c1 = s1.copy() if isinstance(s1, np.ndarray) else s1
+        c2 = s2.copy() if isinstance(s2, np.ndarray) else s2
+        try:
+            got = top.select_pairs(c1, c2)
+        except Exception as ex:  # noqa: BLE001
+            ctx.violation("pairs", f"select_pairs:{branch}:raises", f"select_pairs({s1!r}, {s2!r}) on {case['top']} raised {type(ex).__name__}: {ex}")
+            continue
+        if isinstance(s1, np.ndarray) and not np.array_equal(c1, s1):
+            ctx.observe("pairs-side-effect", "caller's index array reordered in place")
+        arr = np.asarray(got)
+        if want and not (arr.ndim == 2 and arr.shape[1] == 2):
+            ctx.violation("pairs", f"select_pairs:{branch}:result-shape", f"shape {arr.shape} for {len(want)} pairs")
+            continue
+        if not want:
+            if arr.size != 0:
+                ctx.violation("pairs", f"select_pairs:{branch}:pairs-from-nothing", f"{arr.shape} pairs, expected none ({s1!r}, {s2!r})")
+            elif arr.shape != (0, 2):
+                ctx.violation("pairs", f"select_pairs:{branch}:empty-result-shape", f"documented shape (n_pairs, 2); got {arr.shape} for {s1!r}, {s2!r}")
+            else:
+                ctx.ok("pairs")
+            continue
+        if arr.dtype.kind not in "iu":
+            ctx.violation("pairs", f"select_pairs:{branch}:dtype-not-integer", str(arr.dtype))
+            continue
+        rows = [frozenset((int(x), int(y))) for x, y in arr.tolist()]
+        if any(len(r) == 1 for r in rows):
+            ctx.violation("pairs", f"select_pairs:{branch}:atom-paired-with-itself", f"{s1!r}, {s2!r} on {case['top']}")
+        elif len(set(rows)) != len(rows):
+            ctx.violation("pairs", f"select_pairs:{branch}:duplicate-pairs", f"{len(rows) - len(set(rows))} repeated pairs for {s1!r}, {s2!r} on {case['top']}")
+        elif set(rows) != want:
+            ctx.violation("pairs", f"select_pairs:{branch}:wrong-pairs",
+                          f"select_pairs({s1!r}, {s2!r}) on {case['top']}: {len(rows)} pairs, expected {len(want)}; "
+                          f"missing {[sorted(x) for x in list(want - set(rows))[:4]]} extra {[sorted(x) for x in list(set(rows) - want)[:4]]}")
+        else:
+            ctx.ok("pairs")
+
+
+WIDE_HANDLERS = {"history": _run_history, "twotops": _run_twotops, "groups": _run_groups, "pairs": _run_pairs}
+
+
 def run_case(case, ctx):
     top, table, pools = get_top(case["top"])
     e = case["expr"]
@@ -994,6 +1697,18 @@ def run_case(case, ctx):
                           f"{len(bad)} atoms whose {bad[0][0]} flag contradicts the documented wording", first=bad[:5])
         else:
             ctx.ok("keyword-meaning")
+        wide = ref.keyword_meaning_problems_wide(table)
+        for nm in sorted({r for r in table.cols["resname"] if r in ref.VMD_WATER or r in ref.KNOWN_MODIFIED or r in ref.KNOWN_CAPS}):
+            ctx.observe("meaning-residue-class", nm)
+        if wide:
+            ctx.violation("keyword-meaning", f"keyword-meaning:{wide[0][0]}",
+                          f"{len(wide)} atoms of {case['top']} whose flags/code/mass contradict the documented wording "
+                          f"({sorted({w for w, _ in wide})[:6]})", first=wide[:5])
+        else:
+            ctx.ok("keyword-meaning")
+        return
+    if kind in WIDE_HANDLERS:
+        WIDE_HANDLERS[kind](case, ctx, top, table)
         return
     p = ref.Parsed(e)
     ctx.observe("reference-status", p.status)
@@ -1016,6 +1731,20 @@ def run_case(case, ctx):
         for n in p.tree.walk():
             ctx.observe("node", n.kind)
 
+    if kind == "deep":
+        ctx.observe("deep-shape", f"{case['shape']}:{'beyond-bound' if case['beyond'] else 'judged'}")
+        ctx.observe("deep-depth", case["depth"])
+        if case["beyond"] and r.exc == "RecursionError":
+            # the quantifier is bounded ("nesting depth up to the tested bound"); deeper nesting that exhausts the
+            # interpreter stack inside pyparsing is a refusal, not a selection
+            ctx.skip("reference", "nesting beyond the judged bound: parser raised RecursionError")
+            return
+    if kind in ("xlit", "caseflip", "numlit", "regesc", "long", "bigindex", "tiny"):
+        ctx.observe("wide-class", kind + (":" + case["shape"] if "shape" in case else ""))
+        if kind == "xlit" and p.toks:
+            for tk in p.toks:
+                if tk.kind in ("STR", "WORD"):
+                    ctx.observe("literal-class", _literal_class(tk.value))
     if kind == "malformed" or p.status == "malformed":
         if p.status != "malformed":
             if kind == "malformed" and p.status in ("undocumented", "ambiguous"):
@@ -1071,6 +1800,7 @@ def run_case(case, ctx):
         if c != e:
             vs.append(("spacing", "optional whitespace removed", c, "compact"))
         vs.append(("spacing", "whitespace widened (spaces, tabs, trailing newline)", ref.widen(p), "wide"))
+        vs.append(("spacing", "line breaks (LF, CRLF) and tabs between the tokens", ref.widen_nl(p), "multiline"))
     else:
         vs = _variants(p, rng, case.get("nvar", 1), kind)
     for mon, desc, ve, what in vs:
